@@ -10,6 +10,9 @@ mode 3: Interval::tick arithmetic with offsets/periods up to 1500 years.
 mode 4: Runtime::poll_with / poll turns called by hand on a real Runtime, with and
        without an I/O completion waiting for the driver.
 mode 5: Interval starting in the future, first tick dropped 1..5 times.
+mode 6 (two dozen): 1..4 timers next to a task that keeps completions flowing through
+       the driver (pipe / socketpair ping-pong, cross-thread wakes, spawn_blocking
+       results, inline file ops) until >= 300 ms after the last deadline, both drivers.
 plus a small adversarial stream of malformed lines.
 """
 import random
@@ -226,6 +229,29 @@ def gen_f(rng):
     return [5, lead_s, rng.choice([0, 1, rng.randrange(10 ** 9)]), per_s, per_ns, rng.randrange(1, 6)]
 
 
+def gen_t(rng, i=None):
+    """timers while other tasks keep the driver busy; i: index for a round-robin over
+    (driver, traffic kind) so that a quick run covers all ten combinations twice"""
+    if i is None:
+        drv, tk = rng.randrange(2), rng.randrange(5)
+    else:
+        drv, tk = T_COMBOS[i % len(T_COMBOS)]
+    k = rng.randrange(1, 5)
+    timers = []
+    for _ in range(k):
+        timers += [rng.choice([0, 1, 1, 2, 2, 3, 4, 5]), rng.randrange(4)]
+    return [6, drv, tk, rng.choice([0, 0, 5, 20]), k] + timers
+
+
+# (driver, traffic): ping-pong I/O and io_uring inline ops put a completion in front of EVERY driver
+# poll (the driver never times out); wakes / thread-pool results leave gaps
+T_COMBOS = [(0, 0), (1, 0), (0, 1), (1, 1), (0, 4), (0, 0), (1, 1), (0, 2), (1, 2), (0, 3), (1, 3), (1, 4)]
+
+
+def t_count(n):
+    return max(36, min(n // 45, 96))
+
+
 def gen_bad(rng):
     k = rng.randrange(0, 8)
     return [rng.choice([0, 1, 1, 2, 3, 4])] + [rng.randrange(0, 9) for _ in range(k)]
@@ -239,7 +265,11 @@ def generate(seed, n):
     rng = random.Random(seed)
     cases = []
     nb = b_count(n)
+    nt = t_count(n)
     for i in range(n):
+        if nb <= i < nb + nt:
+            cases.append(gen_t(rng, i - nb))
+            continue
         if i < nb:
             # every third runtime program is built around busy I/O / a cancelled first tick
             cases.append(gen_b_focus(rng, (i // 3) % 2) if i % 3 == 2 else gen_b(rng))
@@ -273,6 +303,11 @@ def describe(case):
         return "loop turns on a runtime (%s driver)" % ("polling" if len(case) > 1 and case[1] == 1 else "io_uring")
     if m == 5:
         return "interval, first tick cancelled"
+    if m == 6 and len(case) > 2:
+        tk = ["pipe ping-pong", "socketpair ping-pong", "cross-thread wakes", "spawn_blocking results",
+              "inline file ops"]
+        return "timers under %s traffic (%s driver)" % (
+            tk[case[2]] if case[2] < 5 else "?", "polling" if case[1] == 1 else "io_uring")
     return "malformed"
 
 
